@@ -5,6 +5,8 @@
   sessions (fresh vs after traffic).
 -/
 import Walleye.Props.C17
+import Walleye.Props.C07
+import Walleye.Model.SearchChess
 namespace Walleye
 open Str
 
@@ -41,5 +43,26 @@ theorem state_after_position_independent_of_history (σ σ' : Sess) (raw : List 
   have e2 : step h search σ' (some raw) = .cont ⟨p, t⟩ [] := by
     unfold step; simp +decide only [hc, if_true, if_false, hp]
   simp only [run, e1, e2]
+
+
+/-- **the timed clause, composed**: two sessions with ARBITRARY earlier traffic receive the same
+    `position X`; both then hold the same board and repetition record, so the searches started by a
+    following `go` run on the same input, and if one allowance expires at consultation `k` and the
+    other later or never, the improvements (depth, nodes, score, PV) reported under the shorter one
+    are a prefix of those reported under the longer one — for every ordering behaviour `ord`
+    (a deterministic sort is one), every fuel.  Zero allowance is the case k = 0. -/
+theorem timed_replies_agree_up_to_the_shorter_run {O : Type} (σa σb σa' σb' : Sess) (raw : List Char)
+    (outa outb : List String)
+    (hc : String.ofList ((splitOn ' ' (cleanInput raw)).headD []) = "position")
+    (ha : step h search σa (some raw) = .cont σa' outa) (hb : step h search σb (some raw) = .cont σb' outb)
+    (ord : Oracle Pos O) (fuel : Nat) (o : O) (k : Nat) (e2 : Option Nat) (hl : Later k e2) :
+    σa' = σb' ∧
+    (getBestMove (chessGame h) ord fuel σa'.board (newSS (some k) σa'.table o)).st.infos <+:
+      (getBestMove (chessGame h) ord fuel σb'.board (newSS e2 σb'.table o)).st.infos := by
+  have e := position_overwrites h search σa σb raw hc
+  rw [ha, hb] at e
+  injection e with e1 _
+  subst e1
+  exact ⟨rfl, larger_allowance_only_extends (chessGame h) ord fuel σa'.board σa'.table o k e2 hl⟩
 
 end Walleye
